@@ -41,6 +41,10 @@ func main() {
 	switch fam {
 	case "coll":
 		err = famColl(w, *seed, *n, *labels, *mode, *replay)
+	case "owners":
+		err = famOwners(w, *seed, *n)
+	case "ops":
+		err = famOps(w, *seed, *n)
 	case "refs":
 		err = famRefs(w, *seed, *n)
 	case "conc":
